@@ -3,11 +3,13 @@ module verif/harness
 go 1.21
 
 require (
+	github.com/anishathalye/porcupine v1.3.0
 	github.com/moov-io/base v0.51.1
 	github.com/moov-io/wire v0.0.0
 )
 
 require (
+	github.com/anishathalye/porcupine v1.3.0
 	github.com/rickar/cal/v2 v2.1.17 // indirect
 	golang.org/x/text v0.17.0 // indirect
 )
